@@ -217,7 +217,14 @@ def run_modes(case: dict) -> list[tuple[str, str]]:
         try:
             opts = DR.make_options("triple", (8, 2, 0), case["frame_size"], dl, case["logical"],
                                    generalized=False, rdf_star=False, flow=flow)
-            data = DR.r_graph(seq).serialize(format="jelly", options=opts, encoding="utf-8")
+            if case.get("call") == "stream-only":
+                # the options travel inside the stream object only
+                out = io.BytesIO()
+                DR.r_graph(seq).serialize(destination=out, format="jelly",
+                                          stream=DR.r_stream("triple", opts))
+                data = out.getvalue()
+            else:
+                data = DR.r_graph(seq).serialize(format="jelly", options=opts, encoding="utf-8")
         except Exception as e:  # noqa: BLE001
             results[dl] = ("refused", type(e).__name__)
             continue
@@ -341,11 +348,14 @@ def modes_shard(job) -> dict:
                  "GraphsFrameFlow"):
         for fs in (1, 2, 3, 7, 250):
             for lt in (0, 1, 3):
-                case = {"level": "modes", "flow": flow, "frame_size": fs, "logical": lt}
-                acc.evals += 1
-                acc.nontrivial += 1
-                for label, msg in run_modes(case):
-                    acc.violation({"level": "modes", "variant": label}, f"{msg} case={case}", case)
+                for call in ("options", "stream-only"):
+                    case = {"level": "modes", "flow": flow, "frame_size": fs, "logical": lt,
+                            "call": call}
+                    acc.evals += 1
+                    acc.nontrivial += 1
+                    for label, msg in run_modes(case):
+                        acc.violation({"level": "modes", "variant": label}, f"{msg} case={case}",
+                                      case)
     return acc.out()
 
 
